@@ -187,6 +187,9 @@ func c18Explore(shard, nshards int, tier string) c18Result {
 		// is decided by the cold phase of the free-running race pass (fresh values, no call before the goroutines
 		// start), where an unsynchronised first write is a reported data race and a synchronised one is not.
 		for _, op := range ops {
+			if strings.Contains(op.name, "+caller-overwrites") {
+				continue // a history step of the harness, not library initialisation: judged from its first execution
+			}
 			core.Guard(func() { op.run() })
 		}
 		for oi, op := range ops {
